@@ -183,6 +183,19 @@ def cases(tier, seed):
             for build in ("chk", "rel"):
                 yield {"kind": "limit:" + shape, "build": build, "data": text, "meta": {"n": n},
                        "expect": "accept" if n <= 127 else "reject_390", "shape": "%s:%d" % (shape, n)}
+    # the token limit itself (65536 for sources up to 128 KiB): modules of exactly T tokens for every T around the limit, complete
+    # or cut off inside their last declaration (error recovery then runs at the very end of a full token buffer)
+    tails = [("complete", "", 0), ("fn_name", "fn f", 2), ("fn_paren", "fn f(", 3), ("fn_parens", "fn f()", 4), ("fn_body", "fn f()\n{", 5),
+             ("fn_stmt", "fn f()\n{\n\tvar x =", 8), ("struct_open", "struct S\n{", 3), ("struct_member", "struct S\n{\n\tm:", 5),
+             ("const_eq", "const X: i32 =", 5), ("import", "import", 1), ("pub", "pub", 1), ("stray", ")", 1)]
+    for total in (range(65531, 65541) if quick else range(65500, 65560)):
+        for tname, tail, ttok in tails:
+            body = total - ttok
+            # 5 a + 7 b = body with 0 <= b < 5
+            b = next(k for k in range(5) if (body - 7 * k) % 5 == 0)
+            text = "fn a();\n" * ((body - 7 * b) // 5) + "const C: i32 = 1;\n" * b + tail
+            for build in ("chk", "rel"):
+                yield {"kind": "token_limit:" + tname, "build": build, "data": text, "meta": {"tokens": total, "tail": tname}}
     # generated well-formed modules of every statement / expression density must be accepted
     from . import gen_syntax
     for i in range(300 if quick else 20000):
